@@ -11,13 +11,17 @@ META = {
                   "the ladders/immediates/tags/codec mode are regenerated from brine.py on every run and tied by reflexivity lemmas; the extracted model is compared "
                   "with rpyc.core.brine on generated values and byte strings. Proof is the right level: the property quantifies over all values and all byte strings.",
     "level_note": "Trusted: Coq kernel, pygen, extraction (ExtrOcamlBasic) + driver, harness; CPython's struct/utf-8/int-text are modelled (lib/Utf8.v, lib/Decimal.v) and "
-                  "validated differentially; frozenset order/dedup is Python's; recursion limit, memory and lengths >= 2^32 are outside (excluded by wf).",
+                  "validated differentially; frozenset order/dedup is Python's; recursion limit, memory and lengths >= 2^32 are outside (excluded by wf). Two stated limits: "
+                  "(1) bytes that give a slice's three fields as a frozenset are unpacked in CPython's hash order: the model answers Unmodelled for them (not covered by "
+                  "c04_decode_safe/total; oracle-only in the harness, counted as dec:unmodelled); (2) 'exact type' in brine is a dict lookup keyed by the type object: a class whose "
+                  "METACLASS overrides __eq__/__hash__ to impersonate int is accepted as an int and decodes as one - the model's value universe assumes type objects with the "
+                  "default hash/eq (assumption below).",
     "technique": "Coq proof by nested induction over an inductive value universe; regenerated tables tied by reflexivity; differential correspondence of the extracted model",
     "gen": ["consts", "brine"],
     "shapes": ["brine.*"],
     "models": ["brine"],
     "model_files": ["Brine"],
-    "assumptions": [
+    "assumptions": ["type objects use the default __hash__/__eq__ (no metaclass impersonating a registered type)", 
         "CPython: struct packs IEEE doubles bit-exactly; frozenset(tuple(s)) == s; str(int)/int(bytes)/utf-8 codec are "
         "lib/Decimal.v / lib/Utf8.v (validated differentially on every run)",
         "excluded by the property text / 'encodable': integers beyond sys.get_int_max_str_digits(), lengths >= 2^32, "
